@@ -124,3 +124,47 @@ theorem syncExchange_node_rows (s : Pair) (nl nu : NE) (hid : nu.id = nl.id)
     simp
 
 end Siot.Sync
+
+namespace Siot.Sync
+open Siot Siot.Store
+
+/-! ### the same for the edge points of an edge that exists -/
+
+theorem collapse_single (q : Point) : collapse [q] = [q] := rfl
+
+theorem tryEP_rows (st : St) (id parent : Bytes) (p : Point) (hp : parent ≠ []) (hne : id ≠ parent) (hr : id ≠ st.root)
+    (hnan : isNaN p.value = false) (hty : p.type ≠ nodeTypeT)
+    (hex : ∃ e ∈ st.edges, e.up = parent ∧ e.down = id) (u d : Bytes) :
+    eptsOf (tryEP st id parent [p]) u d =
+      if (u, d) = (parent, id) then (mergeBatch (eptsOf st parent id) (collapse ([p].map normPoint))).1 else eptsOf st u d := by
+  obtain ⟨e, he, heu, hed⟩ := hex
+  have hpe : parent.isEmpty = false := by
+    cases parent with
+    | nil => exact absurd rfl hp
+    | cons _ _ => rfl
+  have hfind : ∃ e0, st.edges.find? (fun e => e.up == parent && e.down == id) = some e0 := by
+    cases hf : st.edges.find? (fun e => e.up == parent && e.down == id) with
+    | some e0 => exact ⟨e0, rfl⟩
+    | none =>
+      exfalso
+      have := List.find?_eq_none.mp hf e he
+      simp [heu, hed] at this
+  obtain ⟨e0, hf⟩ := hfind
+  have hq : ((normPoint p).type != nodeTypeT) = true := by
+    have : (normPoint p).type = p.type := rfl
+    rw [this]; simpa using hty
+  unfold tryEP edgePoints
+  rw [if_neg hne, if_neg (fun h => hr h.1)]
+  have hn : ([p].any (fun p => isNaN p.value)) = false := by simp [hnan]
+  rw [if_neg (by rw [hn]; simp)]
+  simp only [hpe, Bool.false_eq_true, if_false]
+  unfold edgePointsCore
+  simp only [List.map_cons, List.map_nil, collapse_single, List.filter_cons, hq, if_true, List.filter_nil, hf]
+  unfold edgeWrite eptsOf
+  simp only []
+  exact eptsOf_write st (parent, id) _ (u, d)
+
+theorem tryEP_frame_np (st : St) (id parent : Bytes) (pts : List Point) : (tryEP st id parent pts).nodePts = st.nodePts :=
+  tryEP_nodePts st id parent pts
+
+end Siot.Sync
